@@ -111,6 +111,7 @@ def verify(rep, prop, fn, spec, replay=None, fallback=None, timeout=60000, B=2, 
                 fb = fallback(ob.label)
                 if fb and fb.get('confirmed'): fb['note'] = 'the solver counter-model did not replay; failing input found by bounded native search guided by the failed obligation'; rp = fb
             o.replay = rp or dict(confirmed=False, inputs=mv)
+        core.native_search_for_undischarged(o, fallback, counts, ob.label)
         out.append(o); rep.add(o)
     core.oracle_selfcheck(rep, fn, fallback, all(o.status == core.PROVED for o in out))
     return out
